@@ -121,6 +121,20 @@ theorem refsIn_step {s s' : Sys} (I : SysInv s) (R : ∀ r l, s.logs r = some l 
         exact R r0 l hl
       · rw [upd_other _ _ _ _ hr] at hl0; exact R r0 l0 hl0
 
+  | rebuild src cid ents wh =>
+    obtain ⟨l, hl, hg, rfl⟩ := rebuild_step hstep
+    dsimp only at hl0
+    by_cases hr : r0 = s.n
+    · subst hr
+      rw [upd_same] at hl0; cases hl0
+      obtain ⟨_, _, hE, _, _⟩ := rebuild_spec I.uni (I.inv src l hl) cid wh hg
+      intro e he r hr'
+      have := R src l hl e ((hE e).mp he) r hr'
+      unfold hashes at this ⊢
+      obtain ⟨y, hy, hyr⟩ := List.mem_map.mp this
+      exact List.mem_map.mpr ⟨y, (hE y).mpr hy, hyr⟩
+    · rw [upd_other _ _ _ _ hr] at hl0; exact R r0 l0 hl0
+
 theorem refsIn_run : ∀ (ops : List Op) {s s' : Sys}, SysInv s → (∀ r l, s.logs r = some l → RefsIn l) →
     s.run ops = some s' → ∀ r l, s'.logs r = some l → RefsIn l
   | [], s, s', _, R, h => by simp [Sys.run] at h; exact h ▸ R
